@@ -24,8 +24,13 @@ ASSUMPTIONS = [
     "normally and do not call back into the connection",
     "messages carry plain tags only (no repeating groups, no repeated tags), tags are canonical decimals, values "
     "contain no SOH; frame <-> field-list is the Codec family's concern (C01)",
-    "numeric header fields are ASCII (CPython int() also accepts non-ASCII digits / Unicode spaces); sequence "
-    "numbers fit SQLite's 64-bit INTEGER",
+    "numeric header fields are ASCII in the MODEL (CPython int() also accepts non-ASCII digits and NBSP / NEL "
+    "padding); MsgSeqNum values padded with latin-1 white space are exercised by the implementation-only oracle "
+    "(round 4), not by the correspondence; sequence numbers fit SQLite's 64-bit INTEGER",
+    "configuration (preset role UNKNOWN / INITIATOR / ACCEPTOR, which side opens the session, transport kind, reuse "
+    "of one object across sessions) is a quantified variable of the model (theorems hold for every role value); the "
+    "send gate of LOGON_INITIAL_SENT is stated for role INITIATOR, which is the only role the code can have there "
+    "(send_msg assigns it) - that reachability fact is covered by the lock-step histories, not by a theorem",
     "transport write/drain/close and the journal store behave as the fake transport / the abstract store "
     "(C13 ties the SQLite journaler to that store)",
 ]
@@ -36,6 +41,7 @@ MODELLED_NOT_VERIFIED = [
 
 LOUD = ("W", "D", "L", "LO")
 ESTABLISHED = (10, 11, 12, 17)
+ASSIGNED = (0, 1, 2, 3, 6, 7, 8, 10, 11, 12, 17)  # states the code (or the constructor) ever assigns
 
 
 # ------------------------------------------------------------------------------------------------
@@ -72,12 +78,17 @@ def correspondence(ctx):
     impl = S.Impl()
     try:
         stats = {}
-        cases = corpus_cases() + list(S.single_step_cases(ctx.rng))
+        table = list(S.single_step_cases(ctx.rng))
+        if ctx.tier == "quick":
+            # the states the code never assigns (4 5 9 13-16 18) behave like their neighbours: every third case
+            # of those cells in the quick tier, the complete table in the thorough tier
+            table = [c for i, c in enumerate(table) if c[0].state in ASSIGNED or i % 3 == 0]
+        cases = corpus_cases() + table + list(S.near_cases(ctx.rng))
         n, dis, results = S.compare_steps(impl, cases, stats=stats)
         ctx.single_step = (cases, results)  # reused by the oracle (implementation results only)
         hstats = {}
         nh, hl = ctx.n(250, 2500), ctx.n(30, 80)
-        ev, hdis = S.compare_histories(impl, ctx.rng, nh, hl, stats=hstats)
+        ev, hdis = S.compare_histories(impl, ctx.rng, nh, hl, stats=hstats, wide=True)
         samples = []
         for i in (0, len(cases) // 3, len(cases) // 2, len(cases) - 1):
             a, sr, e = cases[i][:3]
@@ -88,14 +99,18 @@ def correspondence(ctx):
         return {
             "evaluations": n + ev,
             "distinct_nontrivial": nontrivial,
-            "rule": "single steps: 19 connection states x 3 roles x {32 inbound message classes x 7 sequence relations x "
+            "rule": "single steps (quick tier: every third case for the 8 never-assigned states): 19 connection states x 3 roles x {32 inbound message classes x 7 sequence relations x "
                     "PossDup, 7 integrity defects x 7 classes x 4 sequence relations, 18 send classes x TestReqID set/unset x "
                     "2 journal shapes, tick at 6 offsets, eof, send_test_req, connect x3, reset, disconnect}; counters "
-                    "cycle through 5 values incl. >= 2^32, 7 journal shapes; distinct = distinct (state, role, event "
+                    "cycle through 5 values incl. >= 2^32, 7 journal shapes; near-miss VALUES (padding, case, NUL, NBSP, "
+                    "truncated, doubled, empty; number spellings; 7 PossDupFlag spellings) for BeginString / both CompIDs / "
+                    "MsgSeqNum / PossDupFlag in 4 states x 2 roles x 3 classes; distinct = distinct (state, role, event "
                     f"class, effect-kind sequence) tuples. histories: {nh} random histories of length <= {hl} compared "
-                    "after every event (effects + whole post-state incl. journal rows).",
+                    "after every event (effects + whole post-state incl. journal rows); histories start from objects of "
+                    "every preset role (UNKNOWN / INITIATOR / ACCEPTOR), either side opens the session, any transport kind, "
+                    "objects are reused across sessions, odd PossDupFlag spellings and near-miss CompIDs occur.",
             "samples": samples,
-            "exhaustive": True,
+            "exhaustive": ctx.tier == "thorough",
             "distribution": {"single_step": stats, "histories": hstats, "single_steps": n, "history_events": ev},
             "disagreements": dis + hdis,
         }
@@ -164,8 +179,11 @@ def writes(eff):
     return [S.parse_msg_tok(e[2:]) for e in eff if e.startswith("W=")]
 
 
-def sentences(a: S.AbsConn, ev, eff, post_tokens):
-    """yield (signature, what) for every sentence of C11 this step violates"""
+def sentences(a: S.AbsConn, ev, eff, post_tokens, reached=False):
+    """yield (signature, what) for every sentence of C11 this step violates.
+    reached: the state `a` was reached by real events from a fresh object (so it IS reachable, whatever its
+    role / configuration); otherwise `a` is a forced state and only the combinations the code can be in are
+    judged."""
     k = kinds(eff)
     post = S.parse_conn_tokens(post_tokens)
     # -- the disconnect is reported exactly once per transition into a disconnected state
@@ -186,14 +204,16 @@ def sentences(a: S.AbsConn, ev, eff, post_tokens):
     # -- sends before the Logon exchange
     if ev[0] == "send":
         mt = ev[2][0]
-        refused = a.state < 6 or (a.state == 6 and mt not in ("A", "5")) or (a.state == 7 and a.role == 1 and mt != "5")
+        refused = (a.state < 6 or (a.state == 6 and mt not in ("A", "5"))
+                   or (a.state == 7 and (a.role == 1 or reached) and mt != "5"))
         if refused and (eff != ["R=Connection"] or post_tokens != a.tokens()):
             yield (f"C11-prelogon-send:{a.state}:{mt}", "send before Logon not refused cleanly (effects / state / counters / journal)")
-    if ev[0] != "recv" or not reachable(a) or a.state <= 3:
+    if ev[0] != "recv" or not (reached or reachable(a)) or a.state <= 3:
         return
-    if post.state == 8 and consistent(a):
-        yield ("C11-half-logged-on", "connection left in LOGON_INITIAL_RECV: Logon received but never answered, "
-               "yet messages are delivered / sent from there")
+    if post.state == 8 and a.state != 8:
+        cause = ",".join(e for e in eff if e.startswith("C=")) or "-"
+        yield (f"C11-half-logged-on:{cause}", "acceptor left in LOGON_INITIAL_RECV: the peer's Logon was received but "
+               "never answered, yet messages are delivered and sends accepted from that state")
     m = ev[2]
     mt = m[0]
     d = defect_class(a, m)
@@ -231,69 +251,135 @@ def sentences(a: S.AbsConn, ev, eff, post_tokens):
         yield (f"C11-defect-logout-no-reason:{cls}", "Logout without the reason text")
 
 
+def followups(a: S.AbsConn, now):
+    """a battery of second events from a state that a real step has just produced"""
+    evs = [("send", now, (mt, tags)) for mt, tags, _ in S.send_classes()]
+    evs += [("recv", now, S.inbound(a, "D", [(58, "next")], now_ms=now)),
+            ("recv", now, S.inbound(a, "A", [(98, "0"), (108, "30")], now_ms=now)),
+            ("recv", now, S.inbound(a, "0", [], now_ms=now)),
+            ("recv", now, S.inbound(a, "1", [(112, "T")], now_ms=now)),
+            ("recv", now, S.inbound(a, "2", [(7, "1"), (16, "0")], now_ms=now)),
+            ("recv", now, S.inbound(a, "D", [(58, "low")], seq=a.next_in - 1, now_ms=now)),
+            ("tick", now + 1000), ("eof", now)]
+    return evs
+
+
 def oracle(ctx, disagreements, broken):
     impl = S.Impl()
     failures, n = [], 0
+    dist = {"forced_steps": 0, "history_steps": 0, "followup_steps": 0, "nonascii_steps": 0}
     try:
-        def check(a, sr, ev, eff, post):
+        def check(a, sr, ev, eff, post, reached=False, hist=None):
             nonlocal n
             n += 1
-            for sig, what in sentences(a, ev, eff, post):
-                failures.append({"signature": sig, "what": what,
-                                 "input": {"conn": a.tokens(), "sr": sr, "event": S.event_tokens(ev)},
+            for sig, what in sentences(a, ev, eff, post, reached):
+                inp = {"conn": a.tokens(), "sr": sr, "event": S.event_tokens(ev)}
+                if hist is not None:
+                    inp = {"history": {"start": hist[0], "events": list(hist[1])}}
+                failures.append({"signature": sig, "what": what, "input": inp,
                                  "expected": "C11 sentence holds", "observed": S.reply(eff, post)[:1500]})
 
-        # the disagreeing inputs first
-        for dis in disagreements[:200]:
+        def run_hist(start, events, upto_check_from=0):
+            """run events (list of (sr, ev)) from `start` on the implementation, checking every step from index
+            `upto_check_from` on as a REACHED state"""
+            impl.load(start)
+            a = start
+            done = []
+            for i, (sr, ev) in enumerate(events):
+                del impl.eff[:]
+                impl.apply(sr, ev)
+                eff, post = impl.effects(), impl.dump()
+                done.append([sr, S.event_tokens(ev)])
+                if i >= upto_check_from:
+                    check(a, sr, ev, eff, post, True, (start.tokens(), done))
+                a = S.parse_conn_tokens(post)
+            return a
+
+        # 1. the disagreeing inputs first; and ONE MORE STEP from the state each of them leads to
+        for dis in disagreements[:120]:
             inp = dis["input"]
             if "conn" in inp:
                 a, ev = S.parse_conn_tokens(inp["conn"]), parse_event(inp["event"])
-                check(a, inp["sr"], ev, *impl.step(a, inp["sr"], ev))
+                eff, post = impl.step(a, inp["sr"], ev)
+                check(a, inp["sr"], ev, eff, post)
+                dist["forced_steps"] += 1
+                if reachable(a) and consistent(a):
+                    b = S.parse_conn_tokens(post)
+                    now = (ev[1] if len(ev) > 1 and isinstance(ev[1], int) else S.T0) + 250
+                    for fev in followups(b, now):
+                        run_hist(a, [(inp["sr"], ev), ("all", fev)], 1)
+                        dist["followup_steps"] += 1
             else:
-                replay_history(impl, inp["history"], check)
-        # the single-step table (implementation results of this run when available)
+                h = inp["history"]
+                run_hist(S.parse_conn_tokens(h["start"]), [(sr, parse_event(e)) for sr, e in h["events"]])
+        # 2. the single-step table (implementation results of this run when available)
         cached = getattr(ctx, "single_step", None)
-        if cached and not broken:
+        if cached and not broken and getattr(ctx, "c11_table_checked", False):
+            pass  # second (DEBUG-logging) pass: the cached table was judged in the first pass
+        elif cached and not broken:
+            ctx.c11_table_checked = True
             for (c, r) in zip(*cached):
                 check(c[0], c[1], c[2], r[0], r[1])
+                dist["forced_steps"] += 1
         else:
-            for c in corpus_cases() + list(S.single_step_cases(ctx.rng)):
+            for c in corpus_cases() + list(S.single_step_cases(ctx.rng)) + list(S.near_cases(ctx.rng)):
                 check(c[0], c[1], c[2], *impl.step(c[0], c[1], c[2]))
-        # random histories: every disconnect is followed by a random suffix
-        nh = ctx.n(150, 1500) * (4 if broken else 1)
+                dist["forced_steps"] += 1
+        # 3. values outside the model's ASCII int(): implementation only
+        for st in (12, 17):
+            a = S.with_journal(S.base_state(st, 1, 3), "app")
+            a.sock = True
+            for v in (f"\xa0{a.next_in}", f"{a.next_in}\x85", f"\xa0{a.next_in - 1}", "\xb2", f"{a.next_in}\xa0\xa0"):
+                ev = ("recv", S.T0, S.inbound(a, "D", [(58, "x")], seq=v))
+                check(a, "all", ev, *impl.step(a, "all", ev))
+                dist["nonascii_steps"] += 1
+        # 4. random histories (every role / either side opens / reuse after disconnect): all states REACHED
+        nh = ctx.n(150, 1500) * (3 if broken else 1)
+        if getattr(ctx, "c11_second_pass", False) and not broken:
+            nh //= 2
+        ctx.c11_second_pass = True
+        hl = ctx.n(30, 80)
         for _ in range(nh):
-            start, steps = S.run_history(impl, ctx.rng, ctx.n(30, 80))
+            start, steps = S.run_history(impl, ctx.rng, hl, wide=True)
             a = start
+            done = []
             for (sr, ev, lab, eff, post) in steps:
-                check(a, sr, ev, eff, post)
+                done.append([sr, S.event_tokens(ev)])
+                check(a, sr, ev, eff, post, True, (start.tokens(), done))
+                dist["history_steps"] += 1
                 a = S.parse_conn_tokens(post)
-        ctx.oracle_stats = {"evaluations": n, "failures": len(failures), "histories": nh,
+        ctx.oracle_stats = {"evaluations": n, "failures": len(failures), "histories": nh, "distribution": dist,
                             "sentences": ["disconnect-count", "loud-after-disconnect", "loud-while-disconnected", "revived",
                                           "prelogon-send", "prelogon-delivery", "defect-delivered", "defect-advanced-counter",
                                           "defect-not-disconnected", "defect-logout", "half-logged-on"]}
     finally:
         impl.close()
-    # smallest first: single steps before histories (already in that order); cap the list
+    # shortest witness per signature first
+    def size(f):
+        h = f["input"].get("history")
+        return len(h["events"]) if h else 0
+    failures.sort(key=size)
     return failures[:500]
-
-
-def replay_history(impl, hist, check):
-    start = S.parse_conn_tokens(hist["start"])
-    impl.load(start)
-    a = start
-    for sr, evt in hist["events"]:
-        ev = parse_event(evt)
-        del impl.eff[:]
-        impl.apply(sr, ev)
-        eff, post = impl.effects(), impl.dump()
-        check(a, sr, ev, eff, post)
-        a = S.parse_conn_tokens(post)
 
 
 def replay(ctx, rp):
     impl = S.Impl()
     try:
         inp = rp["input"]
+        if "history" in inp:
+            h = inp["history"]
+            start = S.parse_conn_tokens(h["start"])
+            impl.load(start)
+            a, sigs = start, []
+            for sr, evt in h["events"]:
+                ev = parse_event(evt)
+                del impl.eff[:]
+                impl.apply(sr, ev)
+                eff, post = impl.effects(), impl.dump()
+                sigs = [s for s, _ in sentences(a, ev, eff, post, True)]
+                a = S.parse_conn_tokens(post)
+            print("replay: history of", len(h["events"]), "events; last step ->", sigs)
+            return rp["signature"] in sigs
         a, ev = S.parse_conn_tokens(inp["conn"]), parse_event(inp["event"])
         eff, post = impl.step(a, inp["sr"], ev)
         sigs = [s for s, _ in sentences(a, ev, eff, post)]
